@@ -73,9 +73,16 @@ SHAPES = {
     'empty':           ({}, lambda E: None, [], False),
 }
 CORE_SHAPES = ['read', 'optimistic', 'immediate', 'serializable', 'ddl']
-POOLS = ['fresh', 'warm', 'dropped']        # state of the thread-local pool when the session under test starts
+POOLS = ['fresh', 'warm', 'dropped', 'disconnected']   # state of the thread-local pool when the session under test starts
 FOLLOW = ({'immediate': True}, _b_read_write, [Q, MOD(False)], False)
 WARM = {'warm': ({}, _b_read, [Q], False), 'dropped': ({'ddl': True}, _b_ddl, [W], False)}
+# what the thread does before the session under test: sessions and db.disconnect()
+PRE = {'fresh': [], 'warm': [('warm', WARM['warm'])], 'dropped': [('warm', WARM['dropped'])],
+       'disconnected': [('warm', WARM['warm']), ('disconnect', None)]}
+
+
+def test_index(case):
+    return len(PRE[case['pool']])
 
 EXC_CLASSES = [sqlite3.OperationalError, sqlite3.IntegrityError, sqlite3.ProgrammingError, sqlite3.DatabaseError,
                sqlite3.InterfaceError, sqlite3.InternalError, sqlite3.DataError, sqlite3.NotSupportedError, sqlite3.Error,
@@ -86,10 +93,10 @@ FOREIGN_EXC = [MemoryError, KeyboardInterrupt]    # not dbapi exceptions: wrap_d
 INIT_GUARD = [False]   # which SQLitePool._connect the tree under test has (probed on the real code by `probe_init_guard`)
 
 
-def session_cfg(opts, reconnect):
+def session_cfg(opts, reconnect, hooks=0):
     ddl = bool(opts.get('ddl'))
     immediate = bool(opts.get('immediate')) or ddl or bool(opts.get('serializable')) or not opts.get('optimistic', True)
-    return {'immediate': immediate, 'ddl': ddl, 'reconnect': reconnect, 'initGuard': INIT_GUARD[0]}
+    return {'immediate': immediate, 'ddl': ddl, 'reconnect': reconnect, 'initGuard': INIT_GUARD[0], 'onConnect': hooks}
 
 
 def probe_init_guard(ctx, workdir):
@@ -111,7 +118,7 @@ class Env(object):
     pass
 
 
-def build(path, tr, timeout=0.25):
+def build(path, tr, timeout=0.25, hooks=0):
     """a bound database on `path` (tables already created -> no DDL in the traced part)"""
     from pony.orm import Database, Required, Set, db_session, select, commit, rollback, flush
     db = Database()
@@ -126,6 +133,9 @@ def build(path, tr, timeout=0.25):
         db.execute('create table if not exists raw_t (a int)')
         db.execute('create table if not exists zz (a int)')
     db.disconnect()
+    for i in range(hooks):          # registered after the set-up: the traced part starts with an empty pool anyway
+        @db.on_connect(provider='sqlite')
+        def hook(db, connection): pass
     E = Env()
     E.db = db; E.T = T; E.U = U; E.db_session = db_session
     E.select = lambda T: select(t for t in T)[:]
@@ -183,7 +193,7 @@ def real_case(workdir, case):
     path = os.path.join(workdir, 'c%d.sqlite' % case['id'])
     for ext in ('', '-journal', '-wal', '-shm'):
         if os.path.exists(path + ext): os.remove(path + ext)
-    E = build(path, tr)
+    E = build(path, tr, hooks=case.get('hooks', 0))
     tr.wrap_locks(E.db.provider)
     if case['reconnect']:
         E.db.provider.should_reconnect = lambda exc: True       # instance attribute of this provider only
@@ -200,9 +210,8 @@ def real_case(workdir, case):
     def in_thread_():
         # the thread-local pool of this fresh thread: con None, no pid attribute
         seq = []
-        if case['pool'] != 'fresh':
-            w = WARM[case['pool']]
-            seq.append(('warm', w[0], w[1], []))
+        for name, w in PRE[case['pool']]:
+            seq.append((name, w[0], w[1], case['faults']) if w else (name, None, None, case['faults']))
         seq.append(('test', opts, body, case['faults']))
         seq.append(('follow', FOLLOW[0], FOLLOW[1], []))
         out['init'] = {'n': tr.next_index, 'nextCon': len(tr.connections), 'poolPid': getattr(E.db.provider.pool, 'pid', None) is not None,
@@ -211,7 +220,11 @@ def real_case(workdir, case):
         for name, o, b, faults in seq:
             m = tr.mark()
             tr.set_faults([Fault(index=base + k, exc=exc_cls) for k in faults])
-            e = run_session(E, o, b)
+            if name == 'disconnect':
+                try: E.db.disconnect(); e = None
+                except BaseException as e_: e = e_
+            else:
+                e = run_session(E, o, b)
             tr.clear_faults()
             ss = snapshot(E, tr)
             pc = E.db.provider.pool.con
@@ -262,11 +275,13 @@ def model_request(case, init, real=None):
     opts, _body, prog, br = SHAPES[case['shape']]
     sessions = []
     base = init['n']
-    if case['pool'] != 'fresh':
-        w = WARM[case['pool']]
-        sessions.append(dict(session_cfg(w[0], case['reconnect']), prog=w[2], bodyRaises=w[3], faults=[]))
-    sessions.append(dict(session_cfg(opts, case['reconnect']), prog=prog, bodyRaises=br, faults=[base + k for k in case['faults']]))
-    sessions.append(dict(session_cfg(FOLLOW[0], case['reconnect']), prog=FOLLOW[2], bodyRaises=FOLLOW[3], faults=[]))
+    hooks = case.get('hooks', 0)
+    faults = [base + k for k in case['faults']]
+    for name, w in PRE[case['pool']]:
+        if w: sessions.append(dict(session_cfg(w[0], case['reconnect'], hooks), prog=w[2], bodyRaises=w[3], faults=faults))
+        else: sessions.append(dict(session_cfg({}, case['reconnect'], hooks), prog=[], bodyRaises=False, faults=faults, disconnect=True))
+    sessions.append(dict(session_cfg(opts, case['reconnect'], hooks), prog=prog, bodyRaises=br, faults=faults))
+    sessions.append(dict(session_cfg(FOLLOW[0], case['reconnect'], hooks), prog=FOLLOW[2], bodyRaises=FOLLOW[3], faults=[]))
     if real is not None and real.get('sessions') and len(real['sessions']) == len(sessions):
         k = base
         for ms, rs in zip(sessions, real['sessions']):
@@ -337,11 +352,12 @@ def compare(ctx, case, real, model, foreign):
 
 def case_json(case):
     return {'shape': case['shape'], 'pool': case['pool'], 'faults': list(case['faults']), 'exc_class': case['exc_class'].__name__,
-            'reconnect': case['reconnect']}
+            'reconnect': case['reconnect'], 'hooks': case.get('hooks', 0)}
 
 
 def case_key(case):
-    return 'shape=%s;pool=%s;faults=%s;reconnect=%d' % (case['shape'], case['pool'], ','.join(map(str, case['faults'])), case['reconnect'])
+    return 'shape=%s;pool=%s;faults=%s;reconnect=%d%s' % (case['shape'], case['pool'], ','.join(map(str, case['faults'])), case['reconnect'],
+                                                      ';hooks=%d' % case['hooks'] if case.get('hooks') else '')
 
 
 def oracle(ctx, case, real):
@@ -350,7 +366,7 @@ def oracle(ctx, case, real):
     if real['blocked']:
         problems.append('the thread of the session blocked for ever (%r)' % (real['blocked'],))
         return problems
-    test_i = 0 if case['pool'] == 'fresh' else 1
+    test_i = test_index(case)
     test = real['sessions'][test_i]
     st = test['state']
     if st['lock']: problems.append('transaction_lock is still held after the session ended')
@@ -386,33 +402,33 @@ def oracle(ctx, case, real):
 _BASE = {}
 
 
-def baseline_request(shape, pool, reconnect):
-    case = {'shape': shape, 'pool': pool, 'faults': [], 'reconnect': reconnect}
+def baseline_request(shape, pool, reconnect, hooks=0):
+    case = {'shape': shape, 'pool': pool, 'faults': [], 'reconnect': reconnect, 'hooks': hooks}
     return model_request(case, {'n': 0, 'nextCon': 0, 'poolPid': False, 'closed': []})
 
 
 def load_baselines(ctx):
-    """fault-free model runs of every (shape, pool, reconnect): ONE driver call"""
-    keys = [(sh, pool, rc) for sh in SHAPES for pool in POOLS for rc in (False, True)]
+    """fault-free model runs of every (shape, pool, reconnect, hooks): ONE driver call"""
+    keys = [(sh, pool, rc, hk) for sh in SHAPES for pool in POOLS for rc in (False, True) for hk in (0, 1, 2)]
     outs = ctx.driver('C19', [baseline_request(*k) for k in keys])
     for k, out in zip(keys, outs):
-        i = 0 if k[1] == 'fresh' else 1
+        i = len(PRE[k[1]])
         n_before = out['sessions'][i - 1]['state']['n'] if i else 0
         _BASE[k] = (out['sessions'][i]['state']['n'] - n_before, n_before, out['sessions'][i]['events'])
 
 
-def baseline_len(ctx, shape, pool, reconnect):
+def baseline_len(ctx, shape, pool, reconnect, hooks=0):
     """number of DB-API calls of the session under test without faults (from the model; checked against the real run),
-    and the number of calls of the warm-up session before it"""
+    and the number of calls of the steps before it"""
     if not _BASE: load_baselines(ctx)
-    return _BASE[(shape, pool, reconnect)][:2]
+    return _BASE[(shape, pool, reconnect, hooks)][:2]
 
 
 def generate_cases(ctx):
     rng = ctx.rng
     cases = []
-    def add(shape, pool, faults, exc=None, reconnect=False):
-        cases.append({'id': len(cases), 'shape': shape, 'pool': pool, 'faults': list(faults), 'reconnect': reconnect,
+    def add(shape, pool, faults, exc=None, reconnect=False, hooks=0):
+        cases.append({'id': len(cases), 'shape': shape, 'pool': pool, 'faults': list(faults), 'reconnect': reconnect, 'hooks': hooks,
                       'exc_class': exc or EXC_CLASSES[len(cases) % len(EXC_CLASSES)]})
     shapes = list(SHAPES)
     for shape in shapes:
@@ -438,6 +454,18 @@ def generate_cases(ctx):
             for k in range(n + 4): add(shape, pool, [off + k], reconnect=True)
             pairs = [(a, b) for a in range(n + 2) for b in range(a + 1, min(a + 7, n + 8))]
             for a, b in (pairs if ctx.thorough else rng.sample(pairs, min(len(pairs), 6))): add(shape, pool, [off + a, off + b], reconnect=True)
+    # db.disconnect() before the session: its close() fails
+    for shape in (shapes if ctx.thorough else CORE_SHAPES):
+        n, off = baseline_len(ctx, shape, 'disconnected', False)
+        add(shape, 'disconnected', [off - 1])
+        add(shape, 'disconnected', [off - 1, off])
+    # @db.on_connect hooks: call_on_connect runs func(db, con); con.commit() on every new connection
+    for shape in (shapes if ctx.thorough else CORE_SHAPES + ['raw_write']):
+        for pool in (['fresh', 'dropped', 'disconnected'] if ctx.thorough else ['fresh', 'dropped']):
+            for hooks in ((1, 2) if ctx.thorough else (1 + (shapes.index(shape) + ctx.seed) % 2,)):
+                n, off = baseline_len(ctx, shape, pool, False, hooks)
+                add(shape, pool, [], hooks=hooks)
+                for k in range(min(n, 6 + hooks) if not ctx.thorough else n + 3): add(shape, pool, [off + k], hooks=hooks)
     # exceptions that are not dbapi exceptions
     for shape in CORE_SHAPES:
         n, off = baseline_len(ctx, shape, 'fresh', False)
@@ -480,14 +508,15 @@ def check_cases(ctx, cases, reals):
         if 'crash' in r:
             raise RuntimeError('harness crashed on %r:\n%s' % (cj, r['crash']))
         foreign = c['exc_class'] in FOREIGN_EXC
-        ctx.case([cj['shape'], cj['pool'], cj['faults'], cj['reconnect']], nontrivial=True,
+        ctx.case([cj['shape'], cj['pool'], cj['faults'], cj['reconnect'], cj['hooks']], nontrivial=True,
                  kind='%s%s' % (c['shape'], ':reconnect' if c['reconnect'] else ''))
         ctx.count('faults:%d' % len(c['faults']))
         ctx.count('pool:' + c['pool'])
+        if c.get('hooks'): ctx.count('on_connect-hooks:%d' % c['hooks'])
         ctx.count('exc:' + c['exc_class'].__name__)
         problems = oracle(ctx, c, r)
         if not r['blocked']:
-            test = r['sessions'][0 if c['pool'] == 'fresh' else 1]
+            test = r['sessions'][test_index(c)]
             ctx.count('outcome:' + test['outcome'])
             ctx.count('end:' + ('pooled' if test['state']['poolCon'] is not None else 'no-connection-in-pool'))
             for e in test['events']:
@@ -509,7 +538,7 @@ def half_initialised(case, real):
     """the session under test ended with pool.con assigned but pool.pid missing: a PRAGMA of SQLitePool._connect failed on
     the first connect of the thread (canonical minimal input: shape=read, pool=fresh, faults=[1])"""
     if real.get('blocked') or not real.get('sessions'): return False
-    i = 0 if case['pool'] == 'fresh' else 1
+    i = test_index(case)
     if len(real['sessions']) <= i: return False
     st = real['sessions'][i]['state']
     return st['poolCon'] is not None and not st['poolPid']
@@ -619,7 +648,7 @@ def thread_scenarios(ctx, workdir):
     tcs = []
     for shape in THREAD_SHAPES:
         baseline_len(ctx, shape, 'fresh', False)
-        calls = [e[0] for e in _BASE[(shape, 'fresh', False)][2] if len(e) == 4]
+        calls = [e[0] for e in _BASE[(shape, 'fresh', False, 0)][2] if len(e) == 4]
         points = [None]; seen = {}
         for c in calls:
             points.append((c, seen.get(c, 0))); seen[c] = seen.get(c, 0) + 1
@@ -686,6 +715,45 @@ def thread_scenarios(ctx, workdir):
                                impl={'lock_order': r['lock_order']})
 
 
+# ---------------------------------------------------------------------------------------------------------------------
+# the contract of Pool.release / Pool.drop the model relies on: `assert con is pool.con`, nothing else of the pool changes
+# ---------------------------------------------------------------------------------------------------------------------
+
+def pool_contract(ctx, workdir):
+    """Pool.release(con) / Pool.drop(con) are called directly on the real pool of a warmed-up thread, with the pooled
+    connection and with a connection the pool did not hand out; outcome, pool.con, pool.pid and close() calls are compared
+    with `poolRelease` / `poolDrop` of the model (which keep `assert con is pool.con` and never touch pool.pid)."""
+    res = []
+    def in_thread():
+        for call in ('release', 'drop'):
+            for foreign in (True, False):
+                tr = Tracer()
+                path = os.path.join(workdir, 'pc-%s-%d.sqlite' % (call, foreign))
+                E = build(path, tr)
+                run_session(E, {}, _b_read)
+                pool = E.db.provider.pool
+                pooled = pool.con
+                other = sqlite3.connect(path, factory=tr.Connection) if foreign else None
+                con = other if foreign else pooled
+                pool.pid = 424242                       # a pid of "another process": release/drop must not re-stamp it
+                try: getattr(pool, call)(con); outcome = 'ok'
+                except BaseException as e: outcome = outcome_kind(e)
+                res.append({'call': call, 'foreign': foreign, 'outcome': outcome, 'pooled': pooled.trace_id, 'con': con.trace_id,
+                            'poolCon': getattr(pool.con, 'trace_id', None) if pool.con is not None else None,
+                            'pid_kept': pool.pid == 424242,
+                            'closed': sorted(i for i, n in tr.close_counts().items() for _ in range(n) if i in (pooled.trace_id, con.trace_id))})
+                tr.cleanup()
+    t = threading.Thread(target=in_thread, name='pool-contract'); t.start(); t.join(60)
+    outs = ctx.driver('C19', [{'op': 'pool_api', 'call': r['call'], 'poolCon': r['pooled'], 'con': r['con']} for r in res])
+    for r, m in zip(res, outs):
+        inp = {'pool_api': r['call'], 'connection': 'not the pooled one' if r['foreign'] else 'the pooled one'}
+        ctx.case(['pool-contract', r['call'], r['foreign']], kind='pool-contract')
+        real = {'outcome': r['outcome'], 'poolCon': r['poolCon'], 'closed': r['closed'], 'pool.pid unchanged': r['pid_kept']}
+        model = {'outcome': m.get('outcome'), 'poolCon': m.get('poolCon'), 'closed': sorted(m.get('closed', [])), 'pool.pid unchanged': True}
+        if real != model:
+            ctx.divergence('Pool.%s(%s) behaves differently from the model' % (r['call'], inp['connection']), inp, model=model, impl=real)
+
+
 def run(ctx):
     if not ctx.driver.ok:
         ctx.note('driver unavailable: correspondence skipped, property oracle only')
@@ -700,6 +768,7 @@ def run(ctx):
         check_cases(ctx, cases, reals)
         known_defect_replay(ctx, workdir)
         if ctx.driver.ok:
+            pool_contract(ctx, workdir)
             t0 = time.time()
             thread_scenarios(ctx, workdir)
             ctx.extra['thread_runs_s'] = round(time.time() - t0, 1)
@@ -714,7 +783,7 @@ def replay(ctx, data):
     try:
         probe_init_guard(ctx, workdir)
         exc = getattr(sqlite3, inp.get('exc_class', 'OperationalError'), None) or {'MemoryError': MemoryError, 'KeyboardInterrupt': KeyboardInterrupt}[inp['exc_class']]
-        case = {'id': 0, 'shape': inp['shape'], 'pool': inp['pool'], 'faults': inp['faults'], 'reconnect': inp.get('reconnect', False), 'exc_class': exc}
+        case = {'id': 0, 'shape': inp['shape'], 'pool': inp['pool'], 'faults': inp['faults'], 'reconnect': inp.get('reconnect', False), 'hooks': inp.get('hooks', 0), 'exc_class': exc}
         reals = {0: real_case(workdir, case)}
         check_cases(ctx, [case], reals)
     finally:
